@@ -476,9 +476,11 @@ class ExprMixin:
             ta, ka = self.as_seq(st, a)
             tb, kb = self.as_seq(st, b)
             if getattr(b, "static_items", None) == [] and elem_sort(kb) != elem_sort(ka):
-                tb = seq_empty(f"(Seq {elem_sort(ka)})")          # an empty list literal takes the other side's kind
+                tb, kb = seq_empty(f"(Seq {elem_sort(ka)})"), ka  # an empty list literal takes the other side's kind
             elif getattr(a, "static_items", None) == [] and elem_sort(kb) != elem_sort(ka):
                 ta, ka = seq_empty(f"(Seq {elem_sort(kb)})"), kb
+            if elem_sort(ka) != elem_sort(kb):
+                raise Unsupported(f"list + list with different element kinds ({ka!r} vs {kb!r}): a kind hint does not fit this code")
             s2, nl = self.new_list(st, ka, seq_concat(ta, tb))
             return k(s2, nl)
         if isinstance(op, (ast.Div,)):
@@ -572,7 +574,21 @@ class ExprMixin:
             if all(isinstance(x, ast.Constant) and isinstance(x.value, str) for x in e.keys):
                 keys = [x.value for x in e.keys]
                 return self.ev_list(st, e.values, lambda s2, vs: k(s2, VPy("litdict", list(zip(keys, vs)))))
-            raise Unsupported("dict display with computed keys")
+            # computed keys: a new dictionary of the kinds of the first entry, filled in display order (later duplicates win)
+            n_ = len(e.keys)
+            if any(k_ is None for k_ in e.keys):
+                raise Unsupported("dict display with ** unpacking")
+
+            def filled(s2, vs):
+                ks, vals = vs[:n_], vs[n_:]
+                kk, vk = self.unwrap(ks[0]).kind, vals[0].kind
+                s3, d = self.new_dict(s2, kk, vk)
+                for k_, v_ in zip(ks, vals):
+                    if repr(self.unwrap(k_).kind) != repr(kk):
+                        raise Unsupported("dict display with keys of different kinds")
+                    s3 = self.dict_set(s3, d, self.key_term(k_, kk), self.coerce(s3, v_, vk))
+                return k(s3, d)
+            return self.ev_list(st, list(e.keys) + list(e.values), filled)
         hint = self.kind_hints.get((self.cur_func_name, e.lineno)) or self.kind_hints.get((self.cur_func_name, "{}"))
         if not hint:
             raise Unsupported(f"dict display at line {e.lineno} of {self.cur_func_name} needs a kind hint")
